@@ -363,9 +363,40 @@ func c12URLs(c *Ctx) {
 			}
 			text = string(b)
 		}
+		if i%11 == 4 {
+			// other shapes net/url delivers for what a user may paste: no "//" after the scheme (an opaque URL: no host,
+			// no path, the label still escaped), an empty authority, a rootless or empty path, other schemes and cases
+			lab := url.PathEscape(iss + ":" + acc)
+			text = gen.Pick(rng, []string{"otpauth:totp/" + lab + "?secret=ABCD&issuer=" + url.QueryEscape(iss), "otpauth:hotp/" + lab + "?secret=ABCD&counter=0", "otpauth:TOTP/" + lab + "?secret=ABCD", "OTPAUTH:totp/" + lab + "?secret=ABCD",
+				"otpauth:///totp/" + lab + "?secret=ABCD", "otpauth:/totp/" + lab + "?secret=ABCD", "otpauth:?secret=ABCD", "otpauth:totp", "otpauth:", "otpauth://totp?secret=ABCD", "otpauth://totp/?secret=ABCD", "otpauth://totp//" + lab + "?secret=ABCD",
+				"otpauth:totp/" + lab + "#frag", "otpauth:totp%2F" + lab + "?secret=ABCD", "https://totp/" + lab + "?secret=ABCD", "//totp/" + lab + "?secret=ABCD", "totp/" + lab + "?secret=ABCD", "otpauth://TOTP:80/" + lab + "?secret=ABCD", "otpauth://[::1]/" + lab + "?secret=ABCD"})
+		}
 		u, err := url.Parse(text)
 		if err != nil {
 			continue
+		}
+		if i%13 == 6 {
+			// a URL value built or edited by hand: fields net/url's parser would never combine (Opaque beside Host and Path,
+			// RawPath that is not an encoding of Path, OmitHost, ForceQuery, a fragment given raw)
+			lab := iss + ":" + acc
+			hb := []*url.URL{
+				{Scheme: "otpauth", Opaque: "totp/" + url.PathEscape(lab), RawQuery: "secret=ABCD"},
+				{Scheme: "otpauth", Opaque: "totp/" + lab, Host: "hotp", Path: "/" + lab, RawQuery: "secret=ABCD&digits=8"},
+				{Scheme: "otpauth", Host: "totp", Path: "/" + lab, RawPath: "/" + url.PathEscape("other:label"), RawQuery: "secret=ABCD"},
+				{Scheme: "otpauth", Host: "totp", Path: lab, RawQuery: "secret=ABCD", ForceQuery: true},
+				{Scheme: "otpauth", Host: "totp", Path: "/" + lab, OmitHost: true, RawQuery: "secret=ABCD"},
+				{Scheme: "otpauth", Path: "totp/" + lab, RawQuery: "secret=ABCD"},
+				{Scheme: "otpauth", Path: "//totp/" + lab, RawQuery: "secret=ABCD", Fragment: "f g", RawFragment: "f%20g"},
+				{Scheme: "OtpAuth", Host: "ToTp", Path: "/" + lab, RawQuery: "secret=ABCD", User: url.UserPassword("u", "p")},
+				{Opaque: "totp/" + lab, RawQuery: "secret=ABCD"},
+				{},
+			}
+			u = hb[rng.Intn(len(hb))]
+			text = fmt.Sprintf("hand-built %#v", *u)
+			r.Count("hand_built_url_values", 1)
+		}
+		if u.Opaque != "" {
+			r.Count("opaque_form_urls", 1)
 		}
 		before := snapURL(u)
 		var p1 *otp.URLParam
@@ -639,7 +670,7 @@ func init() {
 	childParts["C12/main"] = func(c *Ctx, arg json.RawMessage) { c12Main(c) }
 	register(&Prop{
 		ID: "C12",
-		Rule: "OCRA inputs are carved out of canary-filled arrays [guard 64][data][spare][guard 64] in three shapes (len==cap, spare capacity, sub-slice of a larger array) with lengths around 8/128/20/32/64 (admissible and not) and passed to OCRAInput.Validate, GenerateOCRA, ValidateOCRA: full backing arrays, slice headers and the suite are compared before/after; Param pointers (nil, shared, fresh) through HOTP/TOTP calls; parsed URLs through ParseOTPAuthURL; returned URLParam / url.URL / SuiteConfig / list values are mutated and the call repeated; address ranges of all returned slices are checked pairwise and against arguments for overlap; after every batch the defaults, TimeCounterFunc, hash-name table and registry (via hook) are compared with a start-of-run snapshot; " +
+		Rule: "OCRA inputs are carved out of canary-filled arrays [guard 64][data][spare][guard 64] in three shapes (len==cap, spare capacity, sub-slice of a larger array) with lengths around 8/128/20/32/64 (admissible and not) and passed to OCRAInput.Validate, GenerateOCRA, ValidateOCRA: full backing arrays, slice headers and the suite are compared before/after; Param pointers (nil, shared, fresh) through HOTP/TOTP calls; parsed URLs through ParseOTPAuthURL, among them the opaque form without \"//\", empty authorities, other schemes and url.URL values built by hand (Opaque beside Host and Path, inconsistent RawPath, OmitHost, ForceQuery); returned URLParam / url.URL / SuiteConfig / list values are mutated and the call repeated; address ranges of all returned slices are checked pairwise and against arguments for overlap; after every batch the defaults, TimeCounterFunc, hash-name table and registry (via hook) are compared with a start-of-run snapshot; " +
 			"distinct_nontrivial counts distinct canaried OCRA cases, parameter-struct states and parsed URLs",
 		Run: func(c *Ctx) {
 			c12Main(c)
